@@ -25,6 +25,7 @@ func checkC03(w *World, r *Report) {
 	r.Rule("R03.4", "exact name matching only", 3)
 	r.Rule("R03.5", "Filter returns Find results for listed names only", 2)
 	r.Rule("R03.6", "channels dial their own address; handlers registered per own list", 2)
+	r.Rule("R03.7", "per-endpoint state is not read through a loop variable's address after the iteration", 1)
 
 	acc := w.Func("internal/server", "AcceptConnection")
 	filter := w.Method("internal/server", "Channels", "Filter")
@@ -324,6 +325,116 @@ func checkC03(w *World, r *Report) {
 	// ------------------------------------------------------------ R03.6
 	c03Dial(w, r, chIface)
 	c03Register(w, r)
+	c03LoopVarEscape(w, r)
+}
+
+// c03LoopVarEscape: R03.7 — per-endpoint state must not be read at request
+// time through the address of a loop variable. With the module's language
+// version (go.mod: go 1.14) a range variable is ONE variable shared by all
+// iterations; a closure that outlives the iteration and reads through its
+// address sees the last endpoint's data (its allow-list) on every path.
+func c03LoopVarEscape(w *World, r *Report) {
+	n := 0
+	for fn := range allModuleFuncs(w, w.SSA()) {
+		f0 := fn
+		for f0.Parent() != nil {
+			f0 = f0.Parent()
+		}
+		if f0.Pkg == nil || f0.Pkg.Pkg.Path() != modPath+"/internal/server" {
+			continue
+		}
+		allInstrs(fn, func(in ssa.Instruction) {
+			al, ok := in.(*ssa.Alloc)
+			if !ok || !al.Heap {
+				return
+			}
+			// loop variable: allocated outside a cycle, stored inside one
+			if cycleThrough(al.Block()) != nil {
+				return
+			}
+			inLoopStore := false
+			for _, st := range storesTo(al) {
+				if cycleThrough(st.Block()) != nil {
+					inLoopStore = true
+				}
+			}
+			if !inLoopStore {
+				return
+			}
+			n++
+			key := fmt.Sprintf("loopvar:%s@%s", al.Comment, ssaFuncKey(fn))
+			bad := ""
+			for _, ref := range *al.Referrers() {
+				switch x := ref.(type) {
+				case *ssa.MakeClosure:
+					// captured directly by a closure created in the loop
+					if escapes(x) {
+						bad = fmt.Sprintf("%s: a closure that outlives the iteration captures the loop variable %s", w.Pos(x.Pos()), al.Comment)
+					}
+				case ssa.CallInstruction:
+					cc := x.Common()
+					callee := cc.StaticCallee()
+					if callee == nil || !inModule(callee) {
+						continue
+					}
+					for i, a := range cc.Args {
+						if a != ssa.Value(al) || i >= len(callee.Params) {
+							continue
+						}
+						if paramCapturedByEscapingClosure(callee, callee.Params[i]) {
+							bad = fmt.Sprintf("%s: the address of loop variable %s is passed to %s, which keeps it in a closure that is used after the iteration ended: every endpoint's handler then reads the LAST endpoint's data", w.Pos(x.Pos()), al.Comment, ssaFuncKey(callee))
+						}
+					}
+				}
+			}
+			r.Check(bad == "", "R03.7", key, w.Pos(al.Pos()), "the loop variable's address does not outlive its iteration", bad)
+		})
+	}
+	if n == 0 {
+		r.Hold("R03.7", "loopvars:server", "-", "no address-taken loop variable in package server")
+	}
+}
+
+func escapes(mc *ssa.MakeClosure) bool {
+	if mc.Referrers() == nil {
+		return false
+	}
+	for _, ref := range *mc.Referrers() {
+		switch x := ref.(type) {
+		case *ssa.Return, *ssa.Store, *ssa.MakeInterface, *ssa.Go, *ssa.Phi, *ssa.ChangeType:
+			return true
+		case ssa.CallInstruction:
+			if x.Common().Value != ssa.Value(mc) {
+				return true // passed as an argument
+			}
+		}
+	}
+	return false
+}
+
+func paramCapturedByEscapingClosure(fn *ssa.Function, p *ssa.Parameter) bool {
+	found := false
+	allInstrs(fn, func(in ssa.Instruction) {
+		mc, ok := in.(*ssa.MakeClosure)
+		if !ok {
+			return
+		}
+		for _, b := range mc.Bindings {
+			hit := b == ssa.Value(p)
+			if !hit {
+				// the parameter spilled into a local that the closure captures
+				for _, st := range storesTo(b) {
+					if st.Val == ssa.Value(p) {
+						hit = true
+					}
+				}
+			}
+			if hit && escapes(mc) {
+				found = true
+			}
+		}
+	})
+	return found
 }
 
 func c03Filter(w *World, r *Report, filter, find *types.Func) {
